@@ -34,7 +34,7 @@ CLAIMED = {
     ),
     "C19": (
         "Coq proof (invariants by induction over arbitrary message histories; prefix lemmas; refutations by computed witnesses) + correspondence on the real FaultLog + breadth-first history search",
-        "16 theorems in coq/props/C19.v about coq/model/M_Faultlog.v (= FaultLog._insert_into_map/_process_msg over an association-list "
+        "18 theorems in coq/props/C19.v about coq/model/M_Faultlog.v (the read-through LOOP of get_faultlog: from the top with limit 64 it asks for every slot down to the first empty one, slot 3F of a full log included -- C19_read_through_asks_every_slot, C19_full_log_read_to_the_last_slot, tied to the slots the real get_faultlog() asks a scripted controller for over logs of 2..64+ entries; = FaultLog._insert_into_map/_process_msg over an association-list "
         "OrderedDict): for EVERY message history no entry is invented, the view never raises (map values = keys of the entry store), "
         "indices are unique; read-through from an empty view and push-down on a gap-free view are proved (_partial); the full "
         "no-duplicates / push-down / read-through statements are REFUTED with witnesses that are replayed on the implementation "
